@@ -92,7 +92,7 @@ PROPS = {
                 pending=['the value copies made by `c[k] = v` (deep copy before the store) composed with ops_refine_list; slices of lists; dict and list refinement are proved over all operation sequences']),
     'C15': dict(obligations=lambda: P('SqProps.C15') + TIE_LEX + TIE_GRAM + TIE_TOK,
                 slices=['layout'], monitors=['c15'],
-                pending=['lex_extra_blank, prefix half: the steps BEFORE the insertion point are unchanged by the blank (each step looks at most two characters past what it consumes, except NAME `r` before a quote, whose raw-string attempt scans to the end of the text — needs the reachability of the boundary as an invariant); the suffix half (blank_where_a_step_begins, lexer_is_offset_invariant), the parser reading only kinds and values (parser_reads_kind_and_value, leading_blank_same_program) and the token level are proved']),
+                pending=['comments, CRLF and line breaks inside brackets at the CHARACTER level (their token-level statements, and extra blanks between tokens at the character level — extra_blank_between_tokens_same_program — are proved)']),
     'C16': dict(obligations=lambda: P('SqProps.C16') + TIE_TOK,
                 slices=['malformed'], monitors=['c16'],
                 pending=[]),
